@@ -581,8 +581,16 @@ func catalogue() []*entry {
 		}},
 		// ---- multiparty shares
 		{name: "multiparty.PublicKeyGenShare", vals: []value{
-			V("A", func(w *world, g *gen) any { s := multiparty.NewPublicKeyGenProtocol(w.pA).AllocateShare(); g.fill(&s); return &s }),
-			V("C-noP", func(w *world, g *gen) any { s := multiparty.NewPublicKeyGenProtocol(w.pC).AllocateShare(); g.fill(&s); return &s }),
+			V("A", func(w *world, g *gen) any {
+				s := multiparty.NewPublicKeyGenProtocol(w.pA).AllocateShare()
+				g.fill(&s)
+				return &s
+			}),
+			V("C-noP", func(w *world, g *gen) any {
+				s := multiparty.NewPublicKeyGenProtocol(w.pC).AllocateShare()
+				g.fill(&s)
+				return &s
+			}),
 		}},
 		{name: "multiparty.RelinearizationKeyGenShare", vals: []value{
 			V("A", func(w *world, g *gen) any {
